@@ -2,6 +2,7 @@
 
 from __future__ import annotations
 
+import gc
 import hashlib
 import json
 import os
@@ -130,6 +131,7 @@ class Session:
         self.events: list[Any] = []
         self.config_obj: dict[str, EnOptConfig] = {}
         self.steps: dict[str, Any] = {}
+        self.config_as = "object"  # or "dict": every run validates the configuration dictionary anew (short-lived EnOptConfig objects)
 
 
 def run_once(spec: dict[str, Any], session: Session, reuse: str, inside: dict[str, Any] | None = None) -> dict[str, Any]:
@@ -163,7 +165,9 @@ def run_once(spec: dict[str, Any], session: Session, reuse: str, inside: dict[st
     ev.calls.clear()
     session.events.clear()
     # always hand over the same validated configuration object for the same configuration
-    config = session.config_obj.setdefault(key, EnOptConfig.model_validate(build_config(spec)))
+    config: Any = session.config_obj.setdefault(key, EnOptConfig.model_validate(build_config(spec)))
+    if session.config_as == "dict":
+        config = build_config(spec)
     pending = {"spec": inside}
     if inside is not None:
         # another, unrelated optimization runs while this one is alive (started from its first FINISHED_EVALUATION)
@@ -174,6 +178,10 @@ def run_once(spec: dict[str, Any], session: Session, reuse: str, inside: dict[st
 
         session.ctx.add_observer(EventType.FINISHED_EVALUATION, interloper)
     code = session.plan.run_step(session.step, config=config)
+    if session.config_as == "dict":
+        del config
+        session.events[:] = [list(results) for results in session.events]
+        gc.collect()  # the objects of this run are gone (and their addresses free) before the next run starts
     chunks: list[bytes] = [repr(int(code)).encode()]
     first_pert: bytes | None = None
     grads = 0
@@ -195,7 +203,7 @@ def fresh_process_hash(spec: dict[str, Any]) -> str:
     code = ("import json,sys\nimport numpy as np\nfrom checks.c16_reproducible import run_once, Session\n"
             "spec=json.loads(sys.stdin.read())\nprint('HASH', run_once(spec, Session(), 'fresh')['hash'])\n")
     env = dict(os.environ)
-    env["PYTHONHASHSEED"] = str(1 + (len(json.dumps(spec)) + spec["seed"]) % 7)  # this process runs with PYTHONHASHSEED=0
+    env["PYTHONHASHSEED"] = str(1 + (len(json.dumps(spec)) + int(np.sum(spec["seed"]) % 1000)) % 7)  # this process runs with PYTHONHASHSEED=0
     proc = subprocess.run([sys.executable, "-c", code], input=json.dumps(spec), capture_output=True, text=True, env=env,  # noqa: S603
                           timeout=300, check=False)
     for line in proc.stdout.splitlines():
@@ -208,6 +216,7 @@ def fresh_process_hash(spec: dict[str, Any]) -> str:
 def run_case(case: dict[str, Any]) -> dict[str, Any]:
     spec = case["A"]
     session = Session()
+    session.config_as = case.get("config_as", "object")
     first = run_once(spec, session, "fresh")
     interfering = 0
     for action in case["actions"]:
@@ -246,6 +255,10 @@ def hypothesis_shard(item: dict[str, Any]) -> Collector:
         method = draw(st.sampled_from(methods))
         return [method, draw(st.booleans()), draw(st.sampled_from(SAMPLER_OPTIONS[method]))]
 
+    # seeds: small and large integers (any non-negative integer is a valid seed), or a sequence of them
+    seeds = st.one_of(st.integers(0, 50), st.integers(0, 50), st.sampled_from([2**31, 2**32 + 5, 2**40 + 3, 2**63 + 1, 2**64 + 9]),
+                      st.lists(st.sampled_from([0, 1, 7, 2**32 + 1]), min_size=2, max_size=3))
+
     @st.composite
     def specs(draw: Any) -> dict[str, Any]:  # noqa: ANN401
         n, r_n = draw(st.integers(1, 3)), draw(st.integers(1, 3))
@@ -260,13 +273,17 @@ def hypothesis_shard(item: dict[str, Any]) -> Collector:
         if n > 1 and draw(st.booleans()):
             mask = [True] + [draw(st.booleans()) for _ in range(n - 1)]
         return {"n": n, "K": 1, "P": draw(st.integers(1, 4)), "weights": [draw(st.sampled_from([1.0, 2.0])) for _ in range(r_n)],
-                "x0": [draw(st.sampled_from([0.0, 0.5, -0.5])) for _ in range(n)], "seed": draw(st.integers(0, 50)),
+                "x0": [draw(st.sampled_from([0.0, 0.5, -0.5])) for _ in range(n)], "seed": draw(seeds),
                 "samplers": [draw(sampler()) for _ in range(s_n)],
                 "assign": [draw(st.integers(0, s_n - 1)) for _ in range(n)] if s_n > 1 else None, "mask": mask, "filter": flt,
                 "estimator": estimator, "method": draw(st.sampled_from(["slsqp", "slsqp", "de"])), "de_seed": draw(st.integers(0, 20)),
                 "de_seed_generator": draw(st.integers(0, 2)) == 0,
                 "budget": draw(st.integers(2, 4)), "speculative": draw(st.booleans()),
                 "slopes": [draw(st.sampled_from([-1.0, -0.3, 0.4, 1.0])) for _ in range(r_n * n)]}
+
+    def bump(seed: Any, delta: int) -> Any:  # noqa: ANN401
+        """Another seed: for a sequence of integers only its last entry changes."""
+        return [*seed[:-1], seed[-1] + delta] if isinstance(seed, list) else seed + delta
 
     @st.composite
     def cases(draw: Any) -> dict[str, Any]:  # noqa: ANN401
@@ -277,9 +294,12 @@ def hypothesis_shard(item: dict[str, Any]) -> Collector:
             if kind == "reseed":
                 actions.append({"kind": "reseed", "value": draw(st.integers(0, 2**31 - 1))})
                 continue
-            what = draw(st.sampled_from(["seed", "seed", "sampler", "other"]))
-            if what == "seed":
-                changes: dict[str, Any] = {"seed": spec["seed"] + draw(st.integers(1, 9))}
+            what = draw(st.sampled_from(["seed", "seed", "sampler", "other"] + (["assign", "assign"] if spec["assign"] else [])))
+            if what == "assign":  # the same samplers assigned the other way round (another order of first appearance)
+                top = len(spec["samplers"]) - 1
+                changes: dict[str, Any] = {"assign": [top - a for a in spec["assign"]]}
+            elif what == "seed":
+                changes = {"seed": bump(spec["seed"], draw(st.sampled_from([1, 2, 3, 5, 9, 2**32, 2**33, 3 * 2**32, 2**64])))}
             elif what == "sampler":
                 # other samplers, or the same methods with other options
                 changes = {"samplers": [draw(sampler([smp[0]] if draw(st.booleans()) else STOCHASTIC)) for smp in spec["samplers"]],
@@ -291,9 +311,9 @@ def hypothesis_shard(item: dict[str, Any]) -> Collector:
         inside = None
         if draw(st.integers(0, 2)) == 0:  # an unrelated run with the same kind of samplers, executed from a callback of the second run of A
             inside = dict(spec)
-            inside.update({"seed": spec["seed"] + 11, "x0": [v + 0.25 for v in spec["x0"]]})
+            inside.update({"seed": bump(spec["seed"], 11), "x0": [v + 0.25 for v in spec["x0"]]})
         qmc = {smp[0] for smp in spec["samplers"] if smp[0] in ("sobol", "halton", "lhs")}
-        return {"A": spec, "actions": actions, "final_reuse": draw(st.sampled_from(["fresh", "manager", "context", "step"])),
+        return {"A": spec, "actions": actions, "config_as": draw(st.sampled_from(["object", "dict"])), "final_reuse": draw(st.sampled_from(["fresh", "manager", "context", "step"])),
                 # several different QMC engines share one generator: always compare with another interpreter (hash seed)
                 "fresh_process": len(qmc) > 1 or draw(st.integers(0, item["fresh_every"])) == 0, "inside": inside}
 
@@ -303,7 +323,7 @@ def hypothesis_shard(item: dict[str, Any]) -> Collector:
         with_options = any(len(smp) > 2 and smp[2] for smp in case["A"]["samplers"])  # noqa: PLR2004
         col.case(case, nontrivial=info["grads"] >= 1 and info["interfering"] >= 1, classes=(
             f"optimizer={case['A']['method']}", *(f"sampler={m}" for m in sorted(methods)), f"final-reuse={case['final_reuse']}",
-            "fresh-process-reference" if case["fresh_process"] else "in-process-only",
+            "fresh-process-reference" if case["fresh_process"] else "in-process-only", f"config-as={case.get('config_as', 'object')}",
             "interloper-inside-run" if case.get("inside") else "no-interloper", "sampler-options" if with_options else "default-sampler-options", "gradients" if info["grads"] else "no-gradients",
             *(f"action={a['kind']}" + (":" + a["reuse"] if a["kind"] == "run" else "") for a in case["actions"])))
 
